@@ -285,3 +285,13 @@ func holFromStacks(stacks string) string {
 	}
 	return "no"
 }
+
+//go:norace
+func (w *World) noteStream(rpc int, vs *grpctunnel.VerifStream) {
+	w.mu.Lock()
+	if w.vstreams == nil {
+		w.vstreams = map[int]*grpctunnel.VerifStream{}
+	}
+	w.vstreams[rpc] = vs
+	w.mu.Unlock()
+}
